@@ -381,7 +381,7 @@ fn run_c27(tier: &str, seed: u64) -> i32 {
         }
     }
     // a hang is cut off after a cap that is >= 60x the normal duration of a batch
-    let cap = if thorough { 3600 } else { 600 };
+    let cap = if thorough { 1800 } else { 300 };
     let results: std::sync::Mutex<Vec<(usize, Option<(i32, String)>)>> = Default::default();
     let next = std::sync::atomic::AtomicUsize::new(0);
     std::thread::scope(|sc| {
